@@ -483,7 +483,10 @@ class Topology:
             A, b, f2, area = function.eval(funcs)
             A = matrix.assemble_csr(*A, Afun.shape[1])
             N = A.rowsupp(droptol)
-            if numpy.equal(b, 0).all():
+            if numpy.equal(b, 0).all() and not numpy.asarray(constrain)[constrain.where].any():
+                # zero right hand side and no nonzero prescribed values: the
+                # projection is zero (with nonzero prescribed values the free
+                # equations have a nonzero right hand side and must be solved)
                 constrain[~constrain.where & N] = 0
                 avg_error = 0.
             else:
